@@ -309,8 +309,11 @@ class Run:
         begun = None
         if os.path.exists(out_path):
             req = None
-            for l in open(out_path, errors="replace"):
-                l = l.rstrip("\n")
+            content = open(out_path, errors="replace").read()
+            lines = content.split("\n")
+            if not content.endswith("\n"):
+                lines = lines[:-1]   # the process was stopped in the middle of a line: never judge a truncated record
+            for l in lines:
                 if l.startswith("REQ "):
                     req = l[4:]
                 elif l.startswith("OBS ") and req is not None:
@@ -323,6 +326,11 @@ class Run:
                     begun = l[11:]
                 elif l.startswith("NOTE "):
                     notes.append(l[5:])
+        if rc == 124 and begun is not None:
+            # the harness ran into its time limit inside a unit of work (every wait inside a unit is bounded, so this is a
+            # call of the code under test that never returned and that the unit could not bound itself)
+            self.violations.append({"req": "hang " + begun, "observed": "process did not finish within %ss" % to,
+                                    "model": "every call returns (termination theorems)", "rule": "violated:process_hung", "source": "harness tier=%s seed=%s" % (tier, seed)})
         if rc not in (0, 66, 124, -9) and begun is not None and ("panic:" in out or "fatal error:" in out):
             # the process died inside a unit of work (a panic in a library goroutine): that unit is the failing input
             why = [x for x in out.splitlines() if x.startswith("panic:") or x.startswith("fatal error:")]
